@@ -10,7 +10,17 @@
 //   4. after the call ended (return or exception) every structural setter must be
 //      accepted, Circuit::check() must pass, and a further placement call must run;
 //   5. invalid parameter sets and infeasible legalizations are driven through the same
-//      protocol; after a failed legalization the placement must be exactly as before.
+//      protocol; after a failed legalization the placement must be exactly as before.  The
+//      infeasible circuits are of several kinds (too dense; a multi-row block taller than the
+//      rows / wider than every row / with no stack of adjacent rows; a cell lower than a row;
+//      a height that is not a multiple of the row height; a polarity no row accepts; a
+//      standard cell wider than every row), each with movable off-grid cells before AND after
+//      the unplaceable one in index order (a legalizer that exports before it has checked
+//      would have moved them);
+//   6. nested placement calls: at every callback index of an outer call a callback makes
+//      another placement call on the same circuit (valid or invalid parameters, with or
+//      without its own probing/throwing callback); after the nested call returned or threw
+//      the structural setters must STILL be refused until the outer call has ended.
 // Correspondence: the observed trace of each call (callbacks, setter calls with their
 // argument shapes, throw points, how the stage ended) is replayed by lean/Driver/C10.lean
 // on the IR semantics of Model/Busy.lean over the translated Gen/Api.lean; the model
@@ -162,20 +172,61 @@ struct CallResult {
   int callbacks = 0;
   std::string outcome;     // ok | throw:<class>
   bool callbackThrew = false;
+  bool inUseAfter = false;
 };
 
+// a nested placement call made from callback `atCallback` of the observed call
+struct Nest {
+  int atCallback = -1;
+  int stage = LEGALIZE;
+  ColoquinteParameters params{1};
+  bool withCallback = false;  // the nested call gets its own probing callback ...
+  int throwAt = -1;           // ... which throws at this index
+  bool propagate = false;     // the outer callback lets the nested call's exception escape
+  std::string what;
+};
+
+// set when a structural setter was accepted inside a callback: the protocol is broken, the
+// callbacks end the run at once (the failure has been recorded)
+bool g_bail = false;
+
 // One placement call under observation.  throwAt = -1: never throw from the callback.
-// probe: call the setters inside callbacks.
+// probe: call the setters inside callbacks.  depth > 0: the call is made from a callback.
 CallResult observedCall(Sink &s, const std::string &id, Circuit &c, int st, const ColoquinteParameters &p, int throwAt,
-                        bool useCallback, bool probe) {
+                        bool useCallback, bool probe, const Nest *nest = nullptr, int depth = 0,
+                        const std::string &ctx = "") {
   CallResult r;
   s.op(std::string("begin ") + stageName(st));
+  std::string here = std::string("inside a callback of ") + stageName(st) + ctx;
+  auto probeAll = [&](const std::string &where) {
+    for (auto &sc : structuralSetters(c)) {
+      bool threw = runSetter(s, id, c, sc, true, where);
+      if (!threw) { g_bail = true; return; }
+    }
+    for (auto &sc : harmlessSetters(c)) runSetter(s, id, c, sc, false, where + " (non-structural)");
+  };
   PlacementCallback cb = [&](PlacementStep) {
     int j = r.callbacks++;
     s.op("cb");
-    if (probe) {
-      for (auto &sc : structuralSetters(c)) runSetter(s, id, c, sc, true, "inside a callback");
-      for (auto &sc : harmlessSetters(c)) runSetter(s, id, c, sc, false, "inside a callback (non-structural)");
+    if (probe && !g_bail) probeAll(here);
+    if (nest && j == nest->atCallback && !g_bail) {
+      std::string nctx = std::string(" (nested in callback ") + std::to_string(j) + " of " + stageName(st) + ", " + nest->what + ")";
+      CallResult n = observedCall(s, id, c, nest->stage, nest->params, nest->throwAt, nest->withCallback, true, nullptr,
+                                  depth + 1, nctx);
+      s.count(std::string("nested_") + stageName(nest->stage) + "_in_" + stageName(st) + (n.outcome == "ok" ? "_ok" : "_throws"));
+      s.count("nested_calls");
+      if (!g_bail) probeAll(std::string("inside a callback of ") + stageName(st) + " after a nested " + stageName(nest->stage) +
+                            " call (" + nest->what + ") " + (n.outcome == "ok" ? "returned" : "threw"));
+      if (n.outcome != "ok" && nest->propagate && !g_bail) {
+        r.callbackThrew = true;
+        s.op("cbthrow");
+        throw std::runtime_error("nested placement call failed");
+      }
+    }
+    if (g_bail) {
+      r.callbackThrew = true;
+      s.op("cbthrow");
+      throw std::runtime_error("harness: busy protocol broken, run abandoned");
     }
     if (j == throwAt) {
       r.callbackThrew = true;
@@ -205,8 +256,14 @@ CallResult observedCall(Sink &s, const std::string &id, Circuit &c, int st, cons
     auto rows = c.rows_;
     try { c.setRows(rows); } catch (...) { inUse = true; }
   }
+  r.inUseAfter = inUse;
   s.impl(std::string("end ") + (r.outcome == "ok" ? "ok" : "throw") + " inuse=" + (inUse ? "1" : "0"));
   s.eval();
+  if (depth > 0 && !inUse)
+    s.fail(id, std::string("a ") + stageName(st) + " call" + ctx + " released the circuit when it " +
+                   (r.outcome == "ok" ? "returned" : "threw") + ": the outer call is still in progress but structural setters are accepted");
+  if (depth == 0 && inUse)
+    s.fail(id, std::string("the circuit is still in use after ") + stageName(st) + " ended (" + r.outcome + ")");
   return r;
 }
 
@@ -267,6 +324,189 @@ void makeInfeasible(Circuit &c, vh::Rng &g) {
   c.setCellHeight(h);
 }
 
+// ---------------------------------------------------------------- infeasible circuits
+// A circuit whose legalization must fail because of ONE cell (the victim), with movable
+// off-grid cells before and after it in index order.
+enum InfKind { TALL = 0, WIDE_BLOCK, NO_STACK, LOW, NON_MULTIPLE, POLARITY, POLARITY_BLOCK, WIDE_STD, NB_INF_KINDS };
+const char *infKindName(int k) {
+  static const char *n[] = {"block_taller_than_rows", "block_wider_than_rows", "block_without_row_stack", "cell_lower_than_row",
+                            "height_not_multiple", "polarity_forbidden", "polarity_forbidden_block", "cell_wider_than_rows"};
+  return n[k];
+}
+
+struct Infeasible {
+  Circuit c{0};
+  int victim = -1;
+  int kind = 0;
+  int rowHeight = 0;
+};
+
+Infeasible genInfeasible(vh::Rng &g) {
+  Infeasible inf;
+  int kind = g.range(0, NB_INF_KINDS - 1);
+  inf.kind = kind;
+  int H = g.range(2, 8);
+  inf.rowHeight = H;
+  int nRows = g.range(1, 4);
+  if ((kind == NO_STACK || kind == POLARITY_BLOCK) && nRows < 2) nRows = g.range(2, 4);
+  int W = g.range(12, 40);
+  int x0 = g.range(-20, 20), y0 = g.range(-20, 20);
+  bool polKind = kind == POLARITY || kind == POLARITY_BLOCK;
+  bool victimSE = g.chance(1, 2);  // rows N/FN and an SE victim, or rows S/FS and an NW victim
+  int pattern = g.range(0, 2);
+  static const std::vector<CellOrientation> unturned = {CellOrientation::N, CellOrientation::S, CellOrientation::FN, CellOrientation::FS};
+  std::vector<Row> rows;
+  int y = y0, maxRowW = 0;
+  long long totalW = 0;
+  for (int r = 0; r < nRows; ++r) {
+    if (r > 0 && (kind == NO_STACK || g.chance(1, 10))) y += H * g.range(1, 2);
+    CellOrientation ro;
+    if (polKind) ro = victimSE ? (g.chance(1, 2) ? CellOrientation::N : CellOrientation::FN) : (g.chance(1, 2) ? CellOrientation::S : CellOrientation::FS);
+    else if (pattern == 0) ro = (r % 2 == 0) ? CellOrientation::N : CellOrientation::FS;
+    else if (pattern == 1) ro = CellOrientation::N;
+    else ro = g.pick(unturned);
+    int a = x0 + (g.chance(1, 4) ? g.range(-3, 3) : 0);
+    int b = x0 + W + (g.chance(1, 4) ? g.range(-3, 3) : 0);
+    if (kind != WIDE_BLOCK && kind != WIDE_STD && g.chance(1, 8)) {  // split row
+      int m1 = g.range(a + 3, b - 4), m2 = g.range(m1, m1 + 2);
+      rows.emplace_back(a, m1, y, y + H, ro);
+      rows.emplace_back(m2, b, y, y + H, ro);
+      maxRowW = std::max(maxRowW, std::max(m1 - a, b - m2));
+      totalW += (m1 - a) + (b - m2);
+    } else {
+      rows.emplace_back(a, b, y, y + H, ro);
+      maxRowW = std::max(maxRowW, b - a);
+      totalW += b - a;
+    }
+    y += H;
+  }
+  int yTop = y;
+  int levels = (yTop - y0) / H;
+  struct C { int pw, ph; int x, y; CellOrientation orient; bool fixed, obs; CellRowPolarity pol; bool victim; };
+  std::vector<C> cells;
+  long long used = 0;
+  auto normal = [&]() {
+    C c{};
+    int pw = g.range(1, 4), rh = 1;
+    if (nRows >= 2 && kind != NO_STACK && g.chance(1, 6)) rh = 2;
+    if ((used + (long long)pw * rh) * 5 > totalW * 2) { pw = 1; rh = 1; }
+    used += (long long)pw * rh;
+    c.pw = pw; c.ph = rh * H;
+    c.pol = CellRowPolarity::ANY;
+    if (g.chance(1, 3)) c.pol = g.chance(1, 2) ? CellRowPolarity::SAME : CellRowPolarity::OPPOSITE;
+    c.orient = (c.pol == CellRowPolarity::ANY && g.chance(1, 5)) ? (CellOrientation)g.range(0, 7) : g.pick(unturned);
+    if (g.chance(1, 8)) { c.x = g.range(-150, 150); c.y = g.range(-150, 150); }
+    else { c.x = g.range(x0 - 4, x0 + W + 2); c.y = g.range(y0 - 3, yTop + 2); }
+    if ((c.y - y0) % H == 0) c.y += 1;  // off-grid: a successful legalization has to move it
+    c.obs = g.chance(1, 2);
+    return c;
+  };
+  auto fixedCell = [&]() {
+    C c{};
+    c.fixed = true;
+    c.obs = g.chance(1, 2);
+    c.pw = g.range(1, 3); c.ph = g.range(1, H);
+    c.orient = g.pick(unturned);
+    c.pol = CellRowPolarity::ANY;
+    c.x = g.range(x0 - 3, x0 + W); c.y = g.range(y0 - H, yTop);
+    return c;
+  };
+  int nBefore = g.range(1, 3), nAfter = g.range(1, 3);
+  for (int i = 0; i < nBefore; ++i) { if (g.chance(1, 4)) cells.push_back(fixedCell()); cells.push_back(normal()); }
+  {
+    C v{};
+    v.victim = true;
+    v.pol = CellRowPolarity::ANY;
+    v.pw = g.range(1, 4); v.ph = H;
+    switch (kind) {
+      case TALL: v.ph = (levels + g.range(1, 2)) * H; break;
+      case WIDE_BLOCK: v.ph = g.range(2, 3) * H; v.pw = maxRowW + g.range(1, 5); break;
+      case NO_STACK: v.ph = 2 * H; v.pw = g.range(1, 3); break;
+      case LOW: v.ph = g.range(1, H - 1); break;
+      case NON_MULTIPLE: v.ph = H + g.range(1, H - 1); break;
+      case POLARITY: v.pol = victimSE ? CellRowPolarity::SE : CellRowPolarity::NW; break;
+      case POLARITY_BLOCK: v.pol = victimSE ? CellRowPolarity::SE : CellRowPolarity::NW; v.ph = 2 * H; break;
+      case WIDE_STD: v.pw = maxRowW + g.range(1, 5); break;
+    }
+    v.orient = (v.pol == CellRowPolarity::ANY && g.chance(1, 5)) ? (CellOrientation)g.range(0, 7) : g.pick(unturned);
+    v.x = g.range(x0 - 4, x0 + W + 2); v.y = g.range(y0 - 3, yTop + 2);
+    v.obs = g.chance(1, 2);
+    inf.victim = cells.size();
+    cells.push_back(v);
+  }
+  for (int i = 0; i < nAfter; ++i) { cells.push_back(normal()); if (g.chance(1, 4)) cells.push_back(fixedCell()); }
+  int n = cells.size();
+  Circuit circ(n);
+  std::vector<int> w(n), h(n), xs(n), ys(n);
+  std::vector<bool> fx(n), ob(n);
+  std::vector<CellOrientation> orr(n);
+  std::vector<CellRowPolarity> pol(n);
+  for (int i = 0; i < n; ++i) {
+    bool turn = isTurn(cells[i].orient);
+    w[i] = turn ? cells[i].ph : cells[i].pw; h[i] = turn ? cells[i].pw : cells[i].ph;
+    xs[i] = cells[i].x; ys[i] = cells[i].y;
+    fx[i] = cells[i].fixed; ob[i] = cells[i].obs; orr[i] = cells[i].orient; pol[i] = cells[i].pol;
+  }
+  circ.setCellWidth(w); circ.setCellHeight(h); circ.setCellX(xs); circ.setCellY(ys);
+  circ.setCellIsFixed(fx); circ.setCellIsObstruction(ob); circ.setCellOrientation(orr); circ.setCellRowPolarity(pol);
+  circ.setRows(rows);
+  int nn = g.range(0, n + 2);
+  for (int k = 0; k < nn; ++k) {
+    int deg = g.range(1, 4);
+    std::vector<int> pc, px, py;
+    for (int d = 0; d < deg; ++d) { pc.push_back(g.range(0, n - 1)); px.push_back(g.range(-1, 3)); py.push_back(g.range(-1, 3)); }
+    circ.addNet(pc, px, py);
+  }
+  inf.c = circ;
+  return inf;
+}
+
+// the victim becomes an ordinary standard cell
+void repairVictim(Circuit &c, const Infeasible &inf) {
+  std::vector<int> w = c.cellWidth_, h = c.cellHeight_;
+  bool turn = isTurn(c.cellOrientation_[inf.victim]);
+  w[inf.victim] = turn ? inf.rowHeight : 1;
+  h[inf.victim] = turn ? 1 : inf.rowHeight;
+  c.setCellWidth(w);
+  c.setCellHeight(h);
+  std::vector<CellRowPolarity> p = c.cellRowPolarity_;
+  p[inf.victim] = CellRowPolarity::ANY;
+  c.setCellRowPolarity(p);
+}
+
+// what a legalizer that ignored the victim would do: is the rest feasible, and does it move a
+// movable cell of lower index than the victim?  (measures the sensitivity of the "unchanged
+// after a failed legalization" oracle to an export that happens before the failure is detected)
+void measureSensitivity(Sink &s, const Infeasible &inf, const ColoquinteParameters &params) {
+  Circuit ref = inf.c;
+  std::vector<bool> fx = ref.cellIsFixed_, ob = ref.cellIsObstruction_;
+  fx[inf.victim] = true; ob[inf.victim] = false;
+  ref.setCellIsFixed(fx); ref.setCellIsObstruction(ob);
+  std::string before = placementOf(ref);
+  std::vector<int> x0 = ref.cellX_, y0 = ref.cellY_;
+  try {
+    ref.legalize(params);
+  } catch (...) {
+    s.count("infeasible_rest_also_infeasible");
+    return;
+  }
+  s.count("infeasible_rest_feasible");
+  bool lower = false, higher = false;
+  for (int i = 0; i < ref.nbCells(); ++i) {
+    if (ref.cellIsFixed_[i]) continue;
+    if (ref.cellX_[i] != x0[i] || ref.cellY_[i] != y0[i]) (i < inf.victim ? lower : higher) = true;
+  }
+  if (lower) s.count("infeasible_lower_index_cell_would_move");
+  if (higher) s.count("infeasible_higher_index_cell_would_move");
+}
+
+// after a failed call: the placement and every member must be as before
+void checkFailedUnchanged(Sink &s, const std::string &id, const Circuit &d, const std::string &pl, const std::string &before,
+                          const std::string &what) {
+  if (placementOf(d) != pl) s.fail(id, "failed legalization inside " + what + " changed the placement: before " + pl + " after " + placementOf(d));
+  else if (snap(d) != before) s.fail(id, "failed legalization inside " + what + " changed the circuit");
+}
+
 void runInstance(Sink &s, uint64_t seed, long long k, const std::string &id) {
   vh::Rng g = vh::Rng::forCase(seed, k);
   vc::GenOpts o;
@@ -277,11 +517,16 @@ void runInstance(Sink &s, uint64_t seed, long long k, const std::string &id) {
   ColoquinteParameters params = smallParams(g);
   s.op("case " + id);
   s.impl("case " + id);
-  int scenario = g.range(0, 9);  // 0..5 callback faults, 6..7 invalid params, 8..9 infeasible legalization
+  // 0..4 callback faults, 5..6 invalid params, 7 infeasible (too dense), 8..10 infeasible (one unplaceable cell),
+  // 11..13 nested placement calls
+  int scenario = g.range(0, 13);
   std::string desc = "seed=" + std::to_string(seed) + " k=" + std::to_string(k) + " scenario=" + std::to_string(scenario);
   s.os << "D " << desc << "\n";
+  uint64_t hashOverride = 0;
+  const char *scName = scenario <= 4 ? "callback_faults" : scenario <= 6 ? "invalid_params" : scenario <= 7 ? "infeasible_dense"
+                       : scenario <= 10 ? "infeasible_one_cell" : "nested_calls";
 
-  if (scenario <= 5) {
+  if (scenario <= 4) {
     for (int st = 0; st < 3; ++st) {
       // 1. clean run
       Circuit c0 = base;
@@ -307,7 +552,7 @@ void runInstance(Sink &s, uint64_t seed, long long k, const std::string &id) {
         afterCall(s, id, c, what + " and a further " + stageName(st2));
       }
     }
-  } else if (scenario <= 7) {
+  } else if (scenario <= 6) {
     std::string which;
     ColoquinteParameters bad = invalidParams(g, which);
     for (int st = 0; st < 3; ++st) {
@@ -324,7 +569,7 @@ void runInstance(Sink &s, uint64_t seed, long long k, const std::string &id) {
       s.count(std::string("further_legalize") + (r2.outcome == "ok" ? "_ok" : "_throws"));
       afterCall(s, id, c, "after rejected parameters and a further legalize");
     }
-  } else {
+  } else if (scenario <= 7) {
     Circuit c = base;
     makeInfeasible(c, g);
     for (int st = 1; st < 3; ++st) {
@@ -334,8 +579,8 @@ void runInstance(Sink &s, uint64_t seed, long long k, const std::string &id) {
       CallResult r = observedCall(s, id, d, st, params, -1, true, true);
       if (r.outcome != "ok" && r.callbacks == 0) {
         s.count("failed_legalizations");
-        if (placementOf(d) != pl) s.fail(id, std::string("failed legalization inside ") + stageName(st) + " changed the placement");
-        if (snap(d) != before) s.fail(id, std::string("failed legalization inside ") + stageName(st) + " changed the circuit");
+        s.count("failed_legalizations_dense");
+        checkFailedUnchanged(s, id, d, pl, before, std::string(stageName(st)) + " (too dense)");
       } else {
         s.count("infeasible_attempt_was_feasible");
       }
@@ -347,9 +592,73 @@ void runInstance(Sink &s, uint64_t seed, long long k, const std::string &id) {
       s.count(std::string("further_") + stageName(st) + (r2.outcome == "ok" ? "_ok" : "_throws"));
       afterCall(s, id, d, "after an infeasible legalization, repair and a further call");
     }
+  } else if (scenario <= 10) {
+    Infeasible inf = genInfeasible(g);
+    std::string kn = infKindName(inf.kind);
+    s.os << "D " << desc << " kind=" << kn << " victim=" << inf.victim << " circuit: " << vh::jsonEscape(vc::circuitString(inf.c)) << "\n";
+    s.count(std::string("infeasible_kind_") + kn);
+    hashOverride = vh::hashStr(snap(inf.c));
+    measureSensitivity(s, inf, params);
+    // a height that is not a multiple of the row height is placed by the Tetris stage (rounded up):
+    // legalize may succeed, and the detailed placer is not specified on such a cell -> legalize only
+    int lastStage = inf.kind == NON_MULTIPLE ? LEGALIZE : DETAILED;
+    for (int st = 1; st <= lastStage; ++st) {
+      Circuit d = inf.c;
+      s.op("fresh");
+      std::string pl = placementOf(d), before = snap(d);
+      CallResult r = observedCall(s, id, d, st, params, -1, true, true);
+      if (r.outcome != "ok" && r.callbacks == 0) {
+        s.count("failed_legalizations");
+        s.count(std::string("failed_") + stageName(st) + "_" + kn);
+        checkFailedUnchanged(s, id, d, pl, before, std::string(stageName(st)) + " (" + kn + ", unplaceable cell " + std::to_string(inf.victim) + ")");
+      } else {
+        s.count("infeasible_attempt_was_feasible");
+        s.count(std::string("feasible_after_all_") + kn);
+      }
+      afterCall(s, id, d, std::string("after an infeasible ") + stageName(st) + " (" + kn + ")");
+      // repair and place again
+      repairVictim(d, inf);
+      CallResult r2 = observedCall(s, id, d, st, params, -1, true, true);
+      s.count(std::string("further_") + stageName(st) + (r2.outcome == "ok" ? "_ok" : "_throws"));
+      afterCall(s, id, d, "after an infeasible legalization (" + kn + "), repair and a further call");
+    }
+  } else {
+    std::string which;
+    ColoquinteParameters bad = invalidParams(g, which);
+    for (int st = 0; st < 3; ++st) {
+      Circuit c0 = base;
+      s.op("fresh");
+      CallResult clean = observedCall(s, id, c0, st, params, -1, true, false);
+      int N = clean.callbacks;
+      // every callback index of the outer call (at most 6 of them: first 3, last 3)
+      std::vector<int> idx;
+      for (int j = 0; j < N; ++j) if (N <= 6 || j < 3 || j >= N - 3) idx.push_back(j);
+      for (int j : idx) {
+        Nest n;
+        n.atCallback = j;
+        n.stage = g.range(0, 2);
+        bool invalid = g.chance(2, 5);
+        n.params = invalid ? bad : params;
+        n.withCallback = g.chance(1, 2);
+        n.throwAt = n.withCallback && g.chance(1, 2) ? g.range(0, 2) : -1;
+        n.propagate = g.chance(1, 3);
+        n.what = invalid ? "invalid parameters " + which : n.withCallback ? (n.throwAt >= 0 ? "with a callback throwing at " + std::to_string(n.throwAt) : "with a callback") : "no callback";
+        Circuit c = base;
+        s.op("fresh");
+        g_bail = false;
+        CallResult r = observedCall(s, id, c, st, params, -1, true, true, &n);
+        s.count(std::string("outer_") + stageName(st) + (r.outcome == "ok" ? "_ok" : "_throws"));
+        std::string what = std::string("after ") + stageName(st) + " whose callback " + std::to_string(j) + " made a nested " + stageName(n.stage) + " call (" + n.what + ")";
+        afterCall(s, id, c, what);
+        CallResult r2 = observedCall(s, id, c, LEGALIZE, params, -1, true, true);
+        s.count(std::string("further_legalize") + (r2.outcome == "ok" ? "_ok" : "_throws"));
+        afterCall(s, id, c, what + " and a further legalize");
+      }
+    }
   }
-  s.count("scenario_" + std::string(scenario <= 5 ? "callback_faults" : scenario <= 7 ? "invalid_params" : "infeasible"));
-  s.os << "N " << vh::hashStr(snap(base)) << "\n";
+  g_bail = false;
+  s.count(std::string("scenario_") + scName);
+  s.os << "N " << (hashOverride ? hashOverride : vh::hashStr(snap(base))) << "\n";
 }
 
 }  // namespace
@@ -361,10 +670,17 @@ int main(int argc, char **argv) {
   vh::Out out(a.out);
   out.rule = "instance = random circuit (<=4 rows, <=8 movable cells + fixed) x parameters (effort 1..9, 1..4 global steps, "
              "0..2 detailed passes); scenarios: callback throws at EVERY index of each of the three stages (exhaustive per "
-             "instance) / invalid parameter set / infeasible legalization; every callback calls the 7 structural setters "
-             "(must throw, circuit equal) and 3 non-structural ones; after each call all structural setters, "
-             "Circuit::check() and a further placement call.  non-trivial = instance that executed at least one "
-             "placement call ending by an exception; distinct by hash of the circuit";
+             "instance) / invalid parameter set / infeasible legalization, too dense or with ONE unplaceable cell of 8 kinds "
+             "(block taller than the rows, wider than every row, without a stack of adjacent rows; cell lower than a row; height "
+             "not a multiple of the row height; polarity no row accepts, std cell or block; std cell wider than every row) "
+             "between movable off-grid cells of lower and higher index (distribution: infeasible_kind_*, "
+             "infeasible_lower_index_cell_would_move = a legalizer ignoring the victim moves a lower-index cell) / nested "
+             "placement calls made from EVERY callback index (<= 6 per stage) of each stage, with valid or invalid parameters, "
+             "with their own probing/throwing callback, caught or propagated; every callback calls the 7 structural setters "
+             "(must throw, circuit equal), also after a nested call returned or threw, and 3 non-structural ones; after each "
+             "call all structural setters, Circuit::check() and a further placement call; after a failed legalization all "
+             "members compared.  non-trivial = instance that executed at least one placement call ending by an exception; "
+             "distinct by hash of the circuit";
   long long n = a.thorough() ? 3000 : (a.search() ? 600 : 300);
   std::vector<std::pair<uint64_t, long long>> ks;  // (seed, k)
   if (!a.replay.empty()) {
